@@ -590,7 +590,7 @@ def _rewrite_exitstack(body_list):
             # the callback's arguments are evaluated when it is registered, not when it runs
             cargs = []
             for ai, av in enumerate(c.args[1:]):
-              if isinstance(av, ast.Constant):
+              if isinstance(av, ast.Constant) or (isinstance(av, ast.Name) and not any(_stores(x_, av.id) for x_ in inner)):
                 cargs.append(av)
               else:
                 tmp = '__cb%d_%d_%d' % (getattr(st, 'lineno', 0), li, ai)
